@@ -58,6 +58,23 @@ pub fn ref_decode(bytes: &[u8]) -> Option<String> {
     if !flush(cur, &mut seg, &mut out) { return None; }
     Some(out)
 }
+/// the reference decoder with malformed sequences replaced the way the codepage decoder replaces them (U+FFFD), run by run
+pub fn ref_decode_lossy(bytes: &[u8]) -> String {
+    let mut cur: &'static Encoding = lfs_encoding('L'); let mut out = String::new(); let mut seg: Vec<u8> = vec![]; let mut i = 0;
+    fn flush(cur: &'static Encoding, seg: &mut Vec<u8>, out: &mut String) { if seg.is_empty() { return; } let (d, _) = cur.decode_without_bom_handling(seg); out.push_str(&d); seg.clear(); }
+    while i < bytes.len() {
+        let b = bytes[i];
+        if b == b'^' && i + 1 < bytes.len() && MARKERS.as_bytes().contains(&bytes[i + 1]) {
+            flush(cur, &mut seg, &mut out);
+            let l = bytes[i + 1] as char;
+            if l == '8' { out.push_str("^8"); cur = lfs_encoding('L'); } else { cur = lfs_encoding(l); }
+            i += 2; continue;
+        }
+        seg.push(b); i += 1;
+    }
+    flush(cur, &mut seg, &mut out);
+    out
+}
 /// does the byte string contain a double-byte character with trail byte 0x5E directly before a marker letter (known finding)?
 pub fn has_trail5e_marker(bytes: &[u8]) -> bool { bytes.windows(3).any(|w| w[0] >= 0x81 && w[1] == 0x5e && MARKERS.as_bytes().contains(&w[2])) }
 /// the decode-side oracle on one byte string: implementation vs reference decoder (escaped carets are C12's subject)
@@ -143,7 +160,7 @@ pub fn run_c12(a: &Args) {
     // segment strings: runs in different scripts (Latin-1 letters whose bytes are lead bytes of the CJK codepages included) joined by
     // colour codes (^8 resets the codepage), carets, escaped characters and codepage letters: every sequence of up to 4 segments of
     // one pool, then random longer ones
-    let segs: Vec<&str> = vec!["\u{9348}", "\u{fa16}", "^9", "\u{15e}", "\u{45e}", "\u{b2}", "\u{ff12}", "\u{bd}", "\u{663}", "\u{7f8e}", "\u{e9}", "\u{e9}\u{e0}", "\u{448}", "^8", "^1", "^", "L", "J", "\u{ff8f}", "a", "|", "\u{3b1}", "\u{e9}\u{e0}\u{fc}", "\u{ff}\u{fe}", "\u{fe}\u{ff}", "\u{ef}\u{bb}\u{bf}", "\u{44f}\u{44e}"];   // the last four: runs whose bytes look like a byte-order mark
+    let segs: Vec<&str> = vec!["\u{9348}", "\u{fa16}", "^9", "\u{15e}", "\u{45e}", "\u{b2}", "\u{ff12}", "\u{bd}", "\u{663}", "\u{7f8e}", "\u{e9}", "\u{e9}\u{e0}", "\u{448}", "^8", "^1", "^", "L", "J", "\u{ff8f}", "a", "|", "\u{3b1}", "\u{e9}\u{e0}\u{fc}", "\u{ff}\u{fe}", "\u{fe}\u{ff}", "\u{ef}\u{bb}\u{bf}", "\u{44f}\u{44e}", "\u{83}", "\u{8a}\u{9f}"];   // runs whose bytes look like a byte-order mark; C1 code points (characters of some codepages only)
     let smax = if a.thorough() { 4 } else { 3 };
     let mut sidx: Vec<usize> = vec![];
     loop {
@@ -307,6 +324,21 @@ pub fn run_c10(a: &Args) {
         st.exhaustive.push(format!("every string of <= {maxl} class bytes (13 classes) after every marker letter, ending the input"));
     }
     for _ in 0..(if a.thorough() { 500_000 } else { 30_000 }) { let len = rng.range(0, 24) as usize; let mut v = rng.bytes(len); for i in 0..v.len() { if rng.chance(1, 5) { v[i] = b'^'; } else if rng.chance(1, 6) { v[i] = *rng.pick(MARKERS.as_bytes()); } } st.evaluations += 1; if guard(|| to_lossy_string(&v).to_string()).is_none() { st.fail("[C10] to_lossy_string panics".into(), format!("bytes {}", hex(&v))); } decode_oracle(&v, &mut st); }
+    // runs of bytes that are no character in the codepage (0x80 / 0xFF, which are neither lead bytes nor carets), 1..255 of them, between valid
+    // characters of that codepage: whatever stands for the malformed bytes, the characters around and after them are still interpreted in the
+    // codepage - none is dropped, none moves (compared with the codepage decoder applied to the same run of bytes)
+    for l in LETTERS.iter() { let Some(p) = pools.get(l) else { continue };
+        for pat in 0..3 { for n in [1usize, 2, 3, 5, 8, 11, 12, 13, 15, 16, 17, 31, 32, 33, 64, 100, 255] { for before in [false, true] { for after in 0..3 {
+            let mut v = vec![b'^', *l as u8];
+            let c1 = p[(n * 7 + pat) % p.len()]; let c2 = p[(n * 13 + pat + 1) % p.len()];
+            if before { if let Some(w) = enc_one(lfs_encoding(*l), c1) { v.extend(w); } }
+            for i in 0..n { v.push(match pat { 0 => 0x80, 1 => 0xff, _ => if i % 2 == 0 { 0xff } else { 0x80 } }); }
+            match after { 0 => { if let Some(w) = enc_one(lfs_encoding(*l), c2) { v.extend(w); } }, 1 => v.extend_from_slice(b"abc"), _ => { if let Some(w) = enc_one(lfs_encoding(*l), c2) { v.extend(&w); v.extend(&w); } v.extend_from_slice(b" ^Lz") } }
+            st.evaluations += 1; st.bump("runs of malformed bytes between valid characters");
+            let want = ref_decode_lossy(&v);
+            match guard(|| to_lossy_string(&v).to_string()) { None => st.fail("[C10] to_lossy_string panics".into(), format!("bytes:{}=", hex(&v))), Some(got) => if got != want { st.fail(format!("[C10] bytes {} ({n} malformed bytes after ^{l}) decode to {:?} but the codepage's decoder gives {:?}", hex(&v), got.chars().rev().take(12).collect::<String>().chars().rev().collect::<String>(), want.chars().rev().take(12).collect::<String>().chars().rev().collect::<String>()), format!("lossy {}", hex(&v))); } }
+        } } } }
+    }
     // marker-rich valid sequences: two or three segments in different codepages, with ^8 and repeated / trailing markers
     for _ in 0..(if a.thorough() { 200_000 } else { 20_000 }) {
         let mut v: Vec<u8> = vec![];
